@@ -149,6 +149,7 @@ namespace adept {
 	else {
 	  // Managed to reduce cost function
 	  x = new_x;
+	  cost_function_ = new_cost;
 	  n_iterations_++;
 	  // Reduce damping for next iteration
 	  if (damping > levenberg_damping_min_) {
@@ -448,6 +449,7 @@ namespace adept {
 	else {
 	  // Managed to reduce cost function
 	  x = new_x;
+	  cost_function_ = new_cost;
 	  n_iterations_++;
 	  if (frac < 1.0) {
 	    // Found a new bound
